@@ -63,6 +63,9 @@ PROFILES = {
     "debug": dict(name="debug", opt="0", debug_assert=True),
     "release": dict(name="release", opt="3", debug_assert=False),
     "fast": dict(name="fast", opt="1", debug_assert=True),
+    # what matters for the release cross-check is that debug assertions and overflow checks are off, not the optimisation level
+    # (optimising the largest generated units costs minutes of rustc time)
+    "nodebug": dict(name="nodebug", opt="0", debug_assert=False),
 }
 
 
